@@ -475,6 +475,14 @@ def _only_handed_to_then(prog, fn_body, owner, field):
     return mentions > 0
 
 
+def config_single_writer(prog, chk):
+    """context.config is replaced only by set_config"""
+    sc = prog.body(CTX + "::set_config")
+    chk.touch(sc)
+    wc = {k for k in R.field_writers(prog, "config", CTX) if not k.endswith("::default")}
+    chk.ob(wc == {sc.path}, "A10.local-style-id", "config-writers", sc.where(), "context.config is written only by set_config", f"context.config is written by {sorted(wc)}: the configuration in force (limits, border, seed ...) can change behind set_config's back")
+
+
 def local_style_invariant(prog, chk):
     """local_style_id is Some only while config.use_local_styles holds: both are written only by
     set_config, and the false edge always resets the id."""
